@@ -140,6 +140,7 @@ type world struct {
 
 	evalsExec atomic.Int64 // top-level EVAL/EVALSHA handed to miniredis for execution
 	evalsRej  atomic.Int64 // top-level EVAL/EVALSHA answered with the injected error
+	pongs     atomic.Int64 // PINGs answered by miniredis
 	hookDown  atomic.Bool
 	netDown   bool
 	keySeq    int
@@ -168,6 +169,7 @@ func newWorld(t *testing.T) *world {
 				c.WriteError(injectedErr)
 				return true
 			}
+			w.pongs.Add(1)
 		}
 		return false
 	})
@@ -1212,16 +1214,35 @@ func (t *tokCase) hammer(r *kit.Rand) {
 
 // resync waits (bounded) until every instance is served by the store again.
 // Every poll is an ordinary call and is checked like any other.
+//
+// An instance notices the recovery through its own PING (one every 100 ms until
+// the first success). If, after the store came back, miniredis has answered
+// far more PINGs than the instances of this case (and of the previous one)
+// could need - each needs exactly one - and an instance still answers locally
+// in calls invoked after that, it keeps ignoring a store it demonstrably
+// reaches: violation. Otherwise a watchdog ends the wait as inconclusive.
 func (t *tokCase) resync() bool {
-	deadline := time.Now().Add(60 * time.Second)
+	deadline := time.Now().Add(30 * time.Second)
+	pongBase := t.w.pongs.Load()
+	enoughPongs := int64(4*len(t.insts) + 8)
 	for inst := range t.insts {
+		strikes := 0
 		for !t.synced[inst] && !t.abort {
+			enough := t.w.pongs.Load()-pongBase >= enoughPongs
 			if t.call(inst, t.pollN, "resync") {
 				break
 			}
 			t.c.Obs("token_resync_polls", 1)
+			if enough {
+				strikes++
+				if strikes >= 3 {
+					t.c.Viol("C03/token/stays-local-after-recovery", fmt.Sprintf("instance %d still answers from its private limiter although the store is reachable again and has answered %d PINGs since (every instance needs one)", inst, t.w.pongs.Load()-pongBase), t.witness(""))
+					t.abort = true
+					return false
+				}
+			}
 			if time.Now().After(deadline) {
-				t.c.Inconclusive("an instance was not served by the store again within 60 s after the store came back")
+				t.c.Inconclusive("an instance was not served by the store again within 30 s after the store came back")
 				t.abort = true
 				return false
 			}
@@ -1536,9 +1557,9 @@ func TestVerifC03(t *testing.T) {
 	w := newWorld(t)
 	defer w.close()
 
-	kit.Run(t, "C03", "period-seq", kit.N(500, 15000), func(c *kit.Case) { runPeriodSeq(c, w) })
-	kit.Run(t, "C03", "period-conc", kit.N(300, 8000), func(c *kit.Case) { runPeriodConc(c, w) })
-	kit.Run(t, "C03", "token-seq", kit.N(600, 20000), func(c *kit.Case) { runTokenSeq(c, w) })
-	kit.Run(t, "C03", "token-conc", kit.N(400, 10000), func(c *kit.Case) { runTokenConc(c, w) })
+	kit.Run(t, "C03", "period-seq", kit.N(1000, 15000), func(c *kit.Case) { runPeriodSeq(c, w) })
+	kit.Run(t, "C03", "period-conc", kit.N(600, 8000), func(c *kit.Case) { runPeriodConc(c, w) })
+	kit.Run(t, "C03", "token-seq", kit.N(1200, 20000), func(c *kit.Case) { runTokenSeq(c, w) })
+	kit.Run(t, "C03", "token-conc", kit.N(800, 10000), func(c *kit.Case) { runTokenConc(c, w) })
 	kit.End()
 }
